@@ -9,11 +9,17 @@
 (*       iteration order - the "listing order" - is random); kept = ids    *)
 (*       left in the metas map, dups = DuplicateIDs()                      *)
 (*   runs = number of runs                                                 *)
+(*   eff[i] = the compaction group block i effectively belongs to: its     *)
+(*       case group, or 1 for every block when the groups differ only in   *)
+(*       the replica label and the real ReplicaLabelRemover runs before    *)
+(*       the duplicate filter (the compactor's chain, phase 2)             *)
+(*   mutated = the filter chain modified the metas it was given in place   *)
+(*       or left the replica label in its output (informational)           *)
 (* Judged with the property-level operators C31_* of BlockLifecycle.       *)
 (***************************************************************************)
 EXTENDS TraceLib, BlockLifecycle
 
-AllOf(e) == { [id |-> i, src |-> Range(e.in.blocks[i].src), grp |-> e.in.blocks[i].grp] : i \in DOMAIN e.in.blocks }
+AllOf(e) == { [id |-> i, src |-> Range(e.in.blocks[i].src), grp |-> e.eff[i]] : i \in DOMAIN e.in.blocks }
 
 (* hidden-only-if-covered: "hides a block only if another block kept in the same compaction     *)
 (*    group was built from all of the hidden block's sources" (a block is hidden when it is not *)
@@ -32,7 +38,7 @@ Judge(e) ==
     UNION { OutClauses(all, e.outs[k]) : k \in DOMAIN e.outs }
     \cup (IF Len(e.outs) = 1 THEN {} ELSE {"outcome-independent"})
 
-Drift(e) == \E k \in DOMAIN e.outs : Range(e.outs[k].kept) # AlgoDedupKeptIds(AllOf(e))
+Drift(e) == e.mutated \/ \E k \in DOMAIN e.outs : Range(e.outs[k].kept) # AlgoDedupKeptIds(AllOf(e))
 
 VARIABLE l
 TraceInit == l = 1
